@@ -77,6 +77,76 @@ def check_program(prog, root):
     return fails, obs
 
 
+FNARG_SRC = '''from twosigma.memento import memento_function
+import vrec
+
+
+@memento_function(cluster="vp")
+def secret(x):
+    vrec.REC.enter("secret", x)
+    return x + 100
+
+
+@memento_function(cluster="vp")
+def helper(x):
+    return x
+
+
+@memento_function(cluster="vp")
+def caller(fn, x):
+    vrec.REC.enter("caller", x)
+    helper(x)
+    if fn is not None:
+        f = fn[0] if isinstance(fn, list) else (fn["f"] if isinstance(fn, dict) else fn)
+        return f(x)
+    return globals()["sec" + "ret"](x)
+
+
+@memento_function(cluster="vp")
+def late_user(x):
+    vrec.REC.enter("late_user", x)
+    return aux.late(x) if hasattr(aux, "late") else -1
+
+
+from . import aux
+'''
+
+
+def dynamic_scenarios(root):
+    """(1) a function passed as an argument may be called by that invocation only; (2) a module attribute bound
+    later (to an already registered memento function) joins the closure"""
+    pkg = "vdyn_%d" % os.getpid()
+    d = os.path.join(root, pkg)
+    os.makedirs(d, exist_ok=True)
+    open(os.path.join(d, "__init__.py"), "w").write("")
+    open(os.path.join(d, "aux.py"), "w").write("")
+    open(os.path.join(d, "mod.py"), "w").write(FNARG_SRC)
+    fails = []
+    for order in (0, 1):
+        seq = [["callargs", "caller", ["secret", "1"]], ["callargs", "caller", ["[secret]", "3"]], ["callargs", "caller", ["{'f': secret}", "4"]],
+               ["callargs", "caller", ["None", "2"]]]
+        if order:
+            seq = seq[-1:] + seq[:-1] + [["callargs", "caller", ["None", "5"]]]
+        out = vrun.child(dict(root=root, pkg=pkg, store=os.path.join(root, "store%d" % order), actions=[["import"]] + seq))
+        for act, o in zip(seq, out[1:]):
+            res = o.get("result") if isinstance(o, dict) else ["error", o]
+            if act[2][0] == "None":
+                if not (res[0] == "raise" and res[1] == "UndeclaredDependencyError"):
+                    fails.append(dict(clause="undeclared-call-refused", scenario="function-argument", order=order, action=act, got=res[:2]))
+            elif res[0] != "ok":
+                fails.append(dict(clause="argument-function-call-allowed", scenario="function-argument", order=order, action=act, got=res[:3]))
+    seq = [["import"], ["deps", "late_user"], ["call", "late_user", 1], ["bind", "aux", "late", "secret"], ["deps", "late_user"], ["call", "late_user", 2]]
+    out = vrun.child(dict(root=root, pkg=pkg, store=os.path.join(root, "store2"), actions=seq))
+    try:
+        if out[1]["trans"] != [] or out[4]["trans"] != ["secret"] or out[4]["direct"] != ["secret"]:
+            fails.append(dict(clause="transitive-dependencies-exact", scenario="late-bound-attribute", before=out[1], after=out[4]))
+        if out[5]["result"] != ["ok", 102]:
+            fails.append(dict(clause="declared-call-allowed", scenario="late-bound-attribute", got=out[5]["result"][:3]))
+    except Exception as e:
+        fails.append(dict(clause="dependencies-computable", scenario="late-bound-attribute", error=repr(e), out=out))
+    return fails
+
+
 def small_graphs(nmax):
     """every reference graph over <= nmax function nodes of kinds {memento, plain} with bare references"""
     for n in range(1, nmax + 1):
@@ -125,6 +195,10 @@ def main(chk, replay=None):
     progs += [("random", vprogs.gen_prog(rng, nm=rng.randint(2, 5), hidden_rate=0.15, cyc_rate=0.3)) for _ in range(60 if quick else 800)]
     chk.extra["exhaustive_small_graphs"] = (not quick)
     reported = 0
+    for f in dynamic_scenarios(tempfile.mkdtemp(prefix="c14d_", dir=chk.tmpdir())):
+        chk.violation({"what": "dependency closure (%s): %s" % (f.get("scenario"), f["clause"]),
+                       "class": {"clause": f["clause"], "scenario": f.get("scenario")}, "observed": f, "source": FNARG_SRC})
+    chk.case(["dynamic-scenarios"], sample=dict(kind="function passed as argument / late-bound module attribute"))
 
     def work(item):
         src, prog = item
